@@ -543,7 +543,10 @@ STUB_COMPONENTS = [
     "pipes, need-work queue (with feeder stage), connection.wait, active_children, terminate, join -> kernel objects",
     "file system -> a private tmpfs directory per simulator process below the xopen seam; one open() per case may fail with EMFILE; "
     "resource limits -> a fake",
-    "sys.stdin/stdout/stderr -> per-run buffers; stderr is a terminal in some cases (Progress instead of DummyProgress)",
+    "sys.stdout/stderr -> per-run buffers; stderr is a terminal in some cases (Progress instead of DummyProgress); "
+    "sys.stdin -> a real descriptor (/dev/null, file, or pre-filled pipe), one object per simulated process; inputs may be "
+    "pre-filled /dev/fd/N pipes; the working directory may be the data directory; outputs may pre-exist; one output may sit "
+    "on a full disk (ENOSPC at flush/close)",
     "xopen compression threads / external pigz, xz, zstd -> in-process codec; the pipe to the external process "
     "(close waits until forked children that inherited it have exited) is modelled",
     "wall clock -> logical counter",
